@@ -196,11 +196,13 @@ func (sw *SprayAndWait) ReportFailure(bp BundleDescriptor, sender cla.Convergenc
 		return
 	}
 
-	metadata.remainingCopies = metadata.remainingCopies + 1
-
 	for i := 0; i < len(metadata.sent); i++ {
 		if metadata.sent[i] == sender.GetPeerEndpointID() {
 			metadata.sent = append(metadata.sent[:i], metadata.sent[i+1:]...)
+
+			// Only a transmission selected by SenderForBundle took a copy. A failed direct delivery to the
+			// destination node did not and must not give one "back".
+			metadata.remainingCopies = metadata.remainingCopies + 1
 			break
 		}
 	}
